@@ -155,6 +155,8 @@ def _rest_of_run(ctx: Ctx) -> None:
 
     done_rule(ctx, "R13.done")
     load_rules(ctx)
+    from ..parserfresh import fresh_rule
+    fresh_rule(ctx, "R13.fresh", ("RiscvParser", "ToyParser"))
 
 
 def done_rule(ctx: Ctx, rid: str) -> None:
